@@ -107,6 +107,10 @@ class Walker(object):
             bad += self.a.diff_state(self.g.state[to_key], self.a.project(world))
         if not bad:
             return True
+        self._report(bad, label, hist)
+        return False
+
+    def _report(self, bad, label, hist):
         for clause, detail in bad:
             k = (label.get('act'), clause)
             if k in self.failed:
@@ -118,7 +122,6 @@ class Walker(object):
                    'detail': clause}
             rec.update(detail)
             self.ctx.violation(clause, rec)
-        return False
 
     def cover_edges(self, stutter=False):
         """every edge of the graph once, from the state reached along a BFS tree path.
@@ -200,6 +203,58 @@ class Walker(object):
                 self.ctx.sample({'random_walk': [l.get('act') for l in hist]})
         self.ctx.traces += done
         return done
+
+
+def blind_walks(walker, n, depth, seed):
+    """Random walks on which NOTHING is observed before the end: every step is executed (return values judged), but the real object
+    is projected - i.e. read - only after the last one.  A replay that inspects the object after every step would trigger, and so
+    hide, anything an implementation evaluates lazily on access (dirty flags, deferred copies, deferred fills): the observer effect
+    that hid the seeded change C07_k."""
+    rng = random.Random(seed + 7919)
+    g, a, ctx = walker.g, walker.a, walker.ctx
+    done = 0
+    a.blind = True          # adapters that probe the object inside step() consult this flag and refrain
+    try:
+        done = _blind(walker, n, depth, rng)
+    finally:
+        a.blind = False
+    ctx.traces += done
+    return done
+
+
+def _blind(walker, n, depth, rng):
+    g, a, ctx = walker.g, walker.a, walker.ctx
+    done = 0
+    for _ in range(n):
+        ik = rng.choice(g.inits)
+        world = a.new(g.state[ik])
+        k, hist, ok = ik, [], True
+        for _s in range(rng.randint(2, depth)):
+            outs = [(l, t) for l, t in g.edges_from(k) if t != k] or g.edges_from(k)      # state-changing steps first
+            if not outs:
+                break
+            label, tk = rng.choice(outs)
+            walker.steps += 1
+            try:
+                obs = a.step(world, label)
+            except Exception as ex:
+                obs = {'_unexpected': '%s: %s' % (type(ex).__name__, ex)}
+            if obs.get('_skip'):
+                ok = False
+                break
+            bad = [('NoUnexpectedException', {'observed': obs['_unexpected']})] if '_unexpected' in obs else a.diff_obs(label, obs)
+            hist.append(label)
+            k = tk
+            if bad:
+                walker._report(bad, label, hist[:-1])
+                ok = False
+                break
+        if ok and hist:
+            bad = a.diff_state(g.state[k], a.project(world))
+            if bad:
+                walker._report([(c + '.unobserved', d) for c, d in bad], hist[-1], hist[:-1])
+        done += 1
+    return done
 
 
 class NondetWalker(object):
